@@ -46,6 +46,11 @@ pub struct Req {
     /// virtual ms before the request is issued inside its group
     #[serde(default)]
     pub delay_ms: u64,
+    /// the requester goes away: the future of the request (the handler future the RPC server would
+    /// drop when its connection closes, or a local caller's) is dropped when it has been left
+    /// pending this many times
+    #[serde(default)]
+    pub give_up_after_polls: Option<u32>,
 }
 
 #[derive(Serialize, Deserialize, Clone, Debug, Default)]
@@ -295,5 +300,5 @@ pub fn gen_req(rng: &mut impl Rng, cfg: &GenCfg, now_off: &mut i64) -> Req {
             }
         }
     }
-    Req { route: route.to_string(), ks, kind: kind.to_string(), source, items, del_items, delay_ms: 0 }
+    Req { route: route.to_string(), ks, kind: kind.to_string(), source, items, del_items, delay_ms: 0, give_up_after_polls: None }
 }
